@@ -705,6 +705,15 @@ def vc_create_start_nodes(prog, use_edges=True, family='base', expansion=False):
     if len(col_loops) == 1:
         loops[(fv.qual, col_loops[0])] = {'after': cols_after, 'body_post': cols_body_post}
 
+    def cand_body_post(it, env, pre, elem, events, how):
+        # C03 ('empty only without an admissible first candidate') / C01: every candidate of the spatial query is looked at -
+        # the loop over the query result is never left early, whatever first() says about one candidate
+        if how == 'break':
+            it.ctx.oblige("start:no-candidate-is-skipped(the loop over the query result runs to its end)", z3.BoolVal(False), kind='post')
+    for i, x in enumerate(loops_ast):
+        if isinstance(x, ast.For) and i not in col_loops and (fv.qual, i) not in loops:
+            loops[(fv.qual, i)] = {'allow_break': True, 'body_post': cand_body_post}
+
     def common(ctx):
         m = st['matcher']
         g = []
